@@ -39,7 +39,7 @@ def rule_classes(program, ctx):
         "C09.classes",
         "kind-class coverage: SQL (pre_save + post_save together) and LMDB (_post_save) each reference EventKind.SET_METADATA, "
         "EventKind.CONTACTS, is_replaceable and is_paramaterized_replaceable; aionostr defines the ranges [10000,20000) and [30000,40000)",
-        floor=3,
+        floor=2,
     )
     sql = [program.func("nostr_relay.storage.db:DBStorage.pre_save"), program.func("nostr_relay.storage.db:DBStorage.post_save")]
     kv = [program.func("nostr_relay.storage.kv:WriterThread._post_save")]
@@ -88,7 +88,7 @@ def rule_frame_sql(program, ctx):
         "frame conjuncts: the SQL candidate SELECT (pre_save) and the metadata DELETE (post_save) carry pubkey == event.pubkey & kind == event.kind & "
         "created_at < event.created_at; the LMDB scan is INDEXES['authorkinds'] over [(event.pubkey, event.kind)] with until=event.created_at and "
         "skips the new event's own id",
-        floor=4,
+        floor=3,
     )
     ps = program.func("nostr_relay.storage.db:DBStorage.pre_save")
     sel = [s.value for s in walk_no_nested(ps) if isinstance(s, ast.Assign) and "where" in ast.unparse(s.value) and ("select" in ast.unparse(s.value) or (isinstance(s.targets[0], ast.Name) and s.targets[0].id in ast.unparse(s.value)))]
@@ -227,7 +227,7 @@ def rule_dvalue(program, ctx):
         "a candidate is reachable only on edges where the event is not parameterized-replaceable (its d variable is None, assigned only in "
         "that else branch) or `d(candidate) == d(event)` held; (c) SQL: a candidate is marked for deletion only after `tag[1] == d_tag` or the "
         "empty-value test; no LIKE/startswith on d values",
-        floor=3,
+        floor=2,
     )
     fn = program.func("nostr_relay.storage.kv:WriterThread._post_save")
     # (a)
